@@ -181,6 +181,8 @@ var zzValidPrograms = []string{
 	"if ( a > 3 ) { return true ; } else { t ( [ 1 , 2 ] ) ; } return false ;",
 	"function f ( p , q ) { foreach k , v in { \"a\" : p } { t ( v [ 0 ] ) ; } return ( p + q ) ; } return f ( 1 , 2 ) ;",
 	"switch ( a ) { case 1 , 2 { x = \"s\" ; } default { x = a ? 1 : 2 ; } } while ( x < 3 ) { x ++ ; }",
+	"h = { \"Name\" : \"Steve\" , \"Age\" : 3 } ; b = [ 1 , [ 2 , 3 ] , { 4 : 5 } ] ; return h [ \"Name\" ] ;",
+	"return t ( { \"k\" : [ 1 , 2 ] , \"j\" : { } } , ( 1 + 2 ) ) ;",
 }
 
 // ZZ_C13_Truncation: a valid program cut at a token boundary where a
